@@ -12,5 +12,6 @@ meta = dict(property=pid, seed=f"{pid}_{k}", breaks=pid, needs_to_manifest=needs
                            tests_with_change=(d / "tests_with.txt").read_text().strip()),
             ran=f"tools/seed_eval.sh {pid} {k}: patch rebased on /repo HEAD in a scratch worktree, demo with/without, 93 tests, LUNA_REPO=<worktree> ./check",
             check_results=res,
-            detected=any(v.startswith("VIOLATION") for v in res.values()))
+            detected=any(v.startswith("VIOLATION") for v in res.values()),
+            detected_by_own_check=res.get(pid, "").startswith("VIOLATION"))
 (d / "meta.json").write_text(json.dumps(meta, indent=1) + "\n"); print(json.dumps(meta["check_results"]), meta["detected"])
